@@ -54,6 +54,10 @@ def run(ctx):
                            pass_only=('from-storage', 'to-storage', 'store-volume', 'store-contents', 'std-format',
                                       'compare-units'))
         nfun += 1
+    from .c14 import scan_ctor
+    for q_ in ('Container.__init__', 'Plate.__init__'):
+        uscan.report_sinks(ctx, lambda cat: 'C18.R2' if cat in ('to-storage', 'qstr', 'storage-label') else None, scan_ctor(ctx, q_))
+        nfun += 1
     floor(ctx, 'functions scanned for storage discipline', nfun, 8)
     # ---- R3 accept/refuse at a capacity is decided on rounded values: the representation error of an unrounded sum
     # differs between storage units (0.1 + 0.2 > 0.3 in mL, 100 + 200 == 300 in uL)
